@@ -287,6 +287,10 @@ def run(tier, seed):
         elif b["clause"] in ("C13_Bystander", "C13_NoSharing", "conf_touched", "conf_outcome", "harness_or_escape"):
             if len(v.violations) < 50:
                 v.violation(b["clause"] if b["clause"].startswith("C13") else "C13_Bystander", b["detail"], b)
+    # constructed packets: two constructions share no mutable object (defaults are deep copies, at every depth), and
+    # pack() leaves what the attributes read as - described fields forced by the user included - and its own output alone
+    from lib import valuesprofile as vp
+    vp.exhaustive_part(v, "U_C19", [], [rp.GEN_OFF, None], {"C13_shared_default", "C13_pack_pure"})
     thread_part(v, quick, seed)
     v.cov["exhaustive"] = True
     v.cov["rule"] = ("TLC: all histories of <= 4 (5) operations over <= 2 (3) live packets for three programs (merged states, action "
